@@ -62,6 +62,12 @@ CHECKS = {
     "C12": dict(level="model_checking", ref="7/C12", technique="TLA+ spec of chunked pipe reading (Framing.tla) checked by TLC incl. termination; every TLC-enumerated scenario (stream x cuts x call-back error position) realised through a real FIFO and validated by TLC (FramingTrace.tla)",
                 text="TLC: for every stream over {ordinary, binary, longer-than-buffer, delimiter} up to the bound, every partition into write calls, every read granularity and every call-back error position only whole terminated records are delivered, once, in order; delivery stops at the first error; EOF is returned. The same scenarios are written to a real FIFO (writer paced by FIONREAD so partial records are really seen) and the real Ingest's call-backs/return are compared by TLC.",
                 note="Trusted: TLC; the symbol-to-bytes concretisation and decoding in harness/cmd/framing; FIONREAD pacing. Exhaustive up to stream length 4 (quick) / 5 (thorough) plus sampled longer streams."),
+    "C08": dict(level="model_checking", ref="7/C08", technique="TLA+ spec of the daemon's workers, channels and errgroup (Pipeline.tla) checked by TLC for liveness under weak fairness; every fail-stop scenario (cause x load) run against the built binary and judged by TLC (PipelineTrace.tla)",
+                text="TLC: any worker returning, or a signal, leads to all workers returned and process exit, for every interleaving with a flooding audit writer (and the pinned bare-send variant violates it). 19 scenarios (11 causes x idle / sustained audit load / pipes never opened) are run against the binary built from the working tree with real FIFOs; exit status and time to exit are validated.",
+                note="Trusted: TLC; the scenario driver (checks/pipeline.py); 5 s as 'bounded time'; Linux FIFO semantics."),
+    "C13": dict(level="model_checking", ref="7/C13", technique="TLA+ spec (Pipeline.tla) checked by TLC: Cancel ~> Returned for every worker; every blocking situation realised on the real worker, cancelled, observation judged by TLC (PipelineTrace.tla)",
+                text="TLC proves cancellation leads to return for the three workers in every reachable state (weak fairness). 21 blocking situations (opening, idle read, partial record, blocked hand-off with capacities 0/1/4/64, full buffer, flood; select loop idle/busy/with pending login) are established on the real workers with real FIFOs; return within 2 s, error reported, nothing delivered after return.",
+                note="Trusted: TLC; the state-establishing logic of harness/cmd/workers (FIONREAD, channel lengths); wall-clock bounds."),
 }
 
 ALL = ["C%02d" % i for i in range(1, 21)]
